@@ -223,7 +223,9 @@ fn content(rng: &mut Rng, kind: usize) -> Vec<u8> {
             2 => format!("{}/* a libninja: static b */{}{}", body, nl, body),
             _ => format!("use x;{}// libninja: static{}// libninja: after{}old", nl, nl, nl),
         },
-        2 => match rng.below(7) {
+        2 => match rng.below(8) {
+            // a long hand-written head: the directive sits beyond any plausible read-ahead or buffer size
+            7 => format!("{}// libninja: after{}old", "// hand-written helper documentation, kept above the generated part\n".repeat(150 + rng.below(400)), nl),
             5 => format!("use a::b;{}// libninja: after{}{}", nl, nl, "pub fn old_generated_item() {}\n".repeat(3000)),
             6 => format!("// caf\u{e9} libninja: after{}{}", nl, "old\n".repeat(5000)),
             0 => format!("use std::fmt;{}// libninja: after{}OLD GENERATED{}", nl, nl, nl),
